@@ -75,6 +75,10 @@ func runQuota(c *Ctx, idx int, champions bool) {
 	if !champions && idx%7 == 2 {
 		sc.Fitness = fitTiny
 	}
+	if !champions && idx%7 == 4 {
+		sc.Fitness = fitZeroSpecies
+		sc.Opts.CompatThreshold = pick(r, 0.3, 1.0, 2.0) // several species
+	}
 	if champions && idx%5 == 1 {
 		// weights far beyond the usual range (a long run, a strong mutation power): the champion is copied all the same
 		sc.Opts.WeightMutPower = pick(r, 60.0, 400.0)
